@@ -30,8 +30,10 @@ def run(rep, tier):
     rep.rule("C11.3", "modes are stored only if integer (shared with C11)", floor=10)
     common.guarded(rep, "C11.3", c11_3, rep, ix)
     common.guarded(rep, "C02.5", c02_5, rep, ix)
-    from . import c06
-    common.guarded(rep, "C06.1", c06.c06_1, rep, ix, M.G)      # loop bodies execute only in the replay: one entry per executed statement
+    from . import c06, c05
+    common.guarded(rep, "C06.1", c06.c06_1, rep, ix, M.G)
+    c05.shared_tables(rep, ix, M.G)          # values come from tables that hold only this load's data
+    common.guarded(rep, "C02.6", c02_6, rep, ix)      # loop bodies execute only in the replay: one entry per executed statement
 
 
 # ---------------------------------------------------------------------------------------- typing with call-site propagation
@@ -370,6 +372,35 @@ def c02_4(rep, ix):
     ms = [a for a in walk_shallow(fn) if isinstance(a, ast.Assign) and u(a.targets[0]) == "modes"]
     okm = len(ms) == 1 and " ".join(u(ms[0].value).split()) in ("[m for m in ctx.arrayrow().getChildren() if m.getText() != ',']", "ctx.arrayrow().expression()", "list(ctx.arrayrow().expression())")
     rep.check(okm, R, ix.site(f, ms[0]) if ms else ix.site(f), "the mode list is the expression children of arrayrow in source order", "got `%s`" % (u(ms[0].value) if ms else None), key="modes list")
+
+
+# ---------------------------------------------------------------------------------------- C02.6 extracted values are not rewritten
+def c02_6(rep, ix):
+    R = "C02.6"
+    rep.rule(R, "after extraction the positional / keyword values and the checked modes are not rewritten: the only replacement is the wrapping of a symbolic value into RegRefTransform(<that value>)", floor=2)
+    f = ix.func(STMT)
+    fn = f.node
+    un = [a for a in walk_shallow(fn) if isinstance(a, ast.Assign) and isinstance(a.targets[0], ast.Tuple) and u(a.value) == "_get_arguments(ctx.arguments())"]
+    if len(un) != 1:
+        raise Inconclusive("exitStatement: unpacking of _get_arguments not recognised")
+    names = [u(x) for x in un[0].targets[0].elts]
+    n = 0
+    for a in walk_shallow(fn):
+        if isinstance(a, (ast.Assign, ast.AugAssign)) and a is not un[0]:
+            tgts = a.targets if isinstance(a, ast.Assign) else [a.target]
+            for t in tgts:
+                base = t.value if isinstance(t, ast.Subscript) else t
+                if isinstance(base, ast.Name) and base.id in names:
+                    n += 1
+                    v = a.value
+                    ok = isinstance(t, ast.Subscript) and isinstance(v, ast.Call) and u(v.func) == "RegRefTransform" and len(v.args) == 1
+                    rep.check(ok, R, ix.site(f, a), "`%s` only wraps a symbolic value into a register transform" % " ".join(u(a).split())[:70],
+                              "the extracted argument values are rewritten (the stored value is no longer the evaluator's result)", key=" ".join(u(a).split())[:70])
+        if isinstance(a, ast.Call) and isinstance(a.func, ast.Attribute) and isinstance(a.func.value, ast.Name) and a.func.value.id in names and a.func.attr in (
+                "append", "extend", "insert", "pop", "remove", "clear", "update", "sort", "reverse", "setdefault", "popitem"):
+            n += 1
+            rep.bad(R, ix.site(f, a), "`%s` does not change the extracted arguments" % " ".join(u(a).split())[:70], key=" ".join(u(a).split())[:70])
+    rep.ok(R, ix.site(f), "%d writes to the extracted argument containers analysed" % n)
 
 
 # ---------------------------------------------------------------------------------------- C02.5 reported modes / length
